@@ -657,3 +657,7 @@ def run(ctx):
     r2_pb(ctx, ctx.repo)
     r3_bb(ctx, ctx.repo)
     r4_gsd_partial(ctx, ctx.repo)
+    from .c12 import level_lists_fresh
+    for gname, rule in (("PlackettBurmanGenerator", "R2"), ("BoxBehnkenGenerator", "R3")):
+        if ctx.repo.has_cls(gname):
+            level_lists_fresh(ctx, ctx.repo, rule, gname)
